@@ -2,10 +2,13 @@
    Only ExtrOcamlBasic is used: N / Z / positive / nat stay the extracted inductive
    datatypes (no Extract Constant to OCaml int). *)
 From Coq Require Import Extraction ExtrOcamlBasic.
-From StgV Require Import Model.Chars Model.Name Model.NameSpec.
+From StgV Require Import Model.Chars Model.Name Model.NameSpec Model.Locator.
 
 Extraction Language OCaml.
 Extraction "../ocaml/model.ml"
   Chars.utf8_len Chars.dec_of_N Chars.parse_dec Chars.lines Chars.trim
   Name.validate Name.from_str Name.collides Name.make Name.uniquify Name.patch_name_p
-  NameSpec.check_table NameSpec.git_component_ok NameSpec.clean.
+  NameSpec.check_table NameSpec.git_component_ok NameSpec.clean
+  Locator.parse_locator Locator.parse_range Locator.offsets_full Locator.offset_atoms
+  Locator.display_loc Locator.display_range Locator.resolve_name Locator.resolve_names
+  Locator.resolve_names_contiguous Locator.dec_of_Z.
